@@ -14,6 +14,7 @@ func init() {
 	vRegister("VH_C06_smpp_ascii", VH_C06_smpp_ascii)
 	vRegister("VH_C06_ucs2", VH_C06_ucs2)
 	vRegister("VH_C06_fallback", VH_C06_fallback)
+	vRegister("VH_C06_fallback_long", VH_C06_fallback_long)
 	vRegister("VH_C14_generic", VH_C14_generic)
 	vRegister("VH_C14_entry_ucs2", VH_C14_entry_ucs2)
 }
@@ -356,6 +357,61 @@ func VH_C14_entry_ucs2() {
 	for idx := 0; idx+1 < len(parts); idx++ {
 		p := parts[idx]
 		vAssert("C14.entry.ucs2.part-does-not-end-in-high-surrogate", vNot(vAnd(p[len(p)-2] >= 0xD8, p[len(p)-2] <= 0xDB)))
+	}
+	vReach("end")
+}
+
+// Fallback for longer texts: T ASCII letters followed by one character r that the requested
+// coding cannot represent (CJK ideograph, symbolic). The result must be the UCS-2 encoding,
+// reported as UCS-2, with UCS-2's own single/multi threshold and part capacity.
+//   req: 0 SMPP GSM-7 unpacked, 1 SMPP GSM-7 packed, 2 SMPP ASCII, 3 SMPP Latin-1, 4 CMPP ASCII
+func VH_C06_fallback_long() {
+	req, T := vParam("req"), vParam("T")
+	r := rune(vU32("r"))
+	vAssume(r >= 0x4E00 && r <= 0x9FFF)
+	b := make([]byte, T)
+	want := make([]byte, 0, 2*T+2)
+	for i := range b {
+		b[i] = 'a' + byte(i%26)
+		want = append(want, 0, b[i])
+	}
+	want = append(want, byte(r>>8), byte(r))
+	text := string(b) + string(r)
+	key := vU8("key")
+	ctx := context.Background()
+	var parts [][]byte
+	var err error
+	isUCS2 := false
+	switch req {
+	case 0:
+		var c datacoding.SMPPDataCoding
+		parts, c, err = EncodeSMPPContentAndSplit(ctx, text, datacoding.SMPP_CODING_GSM7_UNPACKED, key)
+		isUCS2 = c == datacoding.SMPP_CODING_UCS2
+	case 1:
+		var c datacoding.SMPPDataCoding
+		parts, c, err = EncodeSMPPContentAndSplit(ctx, text, datacoding.SMPP_CODING_GSM7_PACKED, key)
+		isUCS2 = c == datacoding.SMPP_CODING_UCS2
+	case 2:
+		var c datacoding.SMPPDataCoding
+		parts, c, err = EncodeSMPPContentAndSplit(ctx, text, datacoding.SMPP_CODING_ASCII, key)
+		isUCS2 = c == datacoding.SMPP_CODING_UCS2
+	case 3:
+		var c datacoding.SMPPDataCoding
+		parts, c, err = EncodeSMPPContentAndSplit(ctx, text, datacoding.SMPP_CODING_Latin1, key)
+		isUCS2 = c == datacoding.SMPP_CODING_UCS2
+	case 4:
+		var c datacoding.CMPPDataCoding
+		parts, c, err = EncodeCMPPContentAndSplit(ctx, text, datacoding.CMPP_CODING_ASCII, key)
+		isUCS2 = c == datacoding.CMPP_CODING_UCS2
+	}
+	vObserve("nparts", len(parts))
+	vObserveErr("err", err)
+	vAssert("C06.fallback-long.no-error", err == nil)
+	vAssert("C06.fallback-long.reports-ucs2", isUCS2)
+	if len(want) <= 140 {
+		vAssert("C06.fallback-long.single", vAnd(len(parts) == 1, vEqBytes(parts[0], want)))
+	} else {
+		checkParts("C06.fallback-long", parts, want, 134, key)
 	}
 	vReach("end")
 }
